@@ -375,6 +375,19 @@ func buildVal(v *Val) interface{} {
 		default:
 			return x
 		}
+	case "ptrstr":
+		// pointer to a plain string: only generated as a direct field of a
+		// SimObj (which prints through String()), never inside a map or list,
+		// where fmt would print its address
+		x := v.S
+		return &x
+	case "ptrptrstr":
+		x := v.S
+		y := &x
+		return &y
+	case "ptrint":
+		x := v.I
+		return &x
 	case "typednil":
 		switch v.S {
 		case "html":
